@@ -13,6 +13,7 @@ tolerance), every cell's truth table is unchanged once merged surfaces are ident
 pointer refers to a removed surface, surviving surfaces and senses are untouched; the live objects are
 walked independently for the same sentences.
 """
+import hashlib
 import json
 import os
 import random
@@ -84,8 +85,11 @@ def surf_wire(s):
         tr_wire(s.transform) if s.transform is not None else "-"])
 
 
-def cell_wire(c):
-    return "%d:%s:%s" % (c.number, ",".join(str(s.number) for s in c.surfaces) or "-", ",".join(walk(c.geometry)))
+def cell_wire(c, ordered=True):
+    ss = [s.number for s in c.surfaces]
+    if not ordered:
+        ss.sort()           # cell.surfaces is a set to the code (membership, remove): its order is not compared
+    return "%d:%s:%s" % (c.number, ",".join(str(n) for n in ss) or "-", ",".join(walk(c.geometry)))
 
 
 def transforms_of(pr):
@@ -93,11 +97,16 @@ def transforms_of(pr):
     return [d for d in pr.data_inputs if isinstance(d, Transform)]
 
 
+CELLMOD_CARDS = ("Volume", "UniverseInput", "LatticeInput", "Fill")
+VARIANT = os.environ.get("C18_VARIANT", "c")       # "f": compare with the model of the code with proposed_fixes/C18-1..3
+
+
 def request_of(pr, tol):
     ss = ";".join(surf_wire(s) for s in pr.surfaces) or "-"
     cs = ";".join(cell_wire(c) for c in pr.cells) or "-"
     ts = ";".join(tr_wire(t) for t in transforms_of(pr)) or "-"
-    return "%s %s %s %s" % (q(tol), ss, cs, ts)
+    cellmod = any(type(d).__name__ in CELLMOD_CARDS for d in pr.data_inputs)
+    return "%s%s %s %s %s %s" % (VARIANT, "m" if cellmod else "", q(tol), ss, cs, ts)
 
 
 def snapshot(pr):
@@ -153,7 +162,7 @@ def real_response(pr, exc, mmap):
     surv = ",".join(str(s.number) for s in pr.surfaces) or "-"
     m = ",".join("%d>%d" % kv for kv in (mmap or [])) or "-"
     dele = ",".join(str(k) for k in sorted(k for k, _ in (mmap or []))) or "-"
-    cs = ";".join(cell_wire(c) for c in pr.cells) or "-"
+    cs = ";".join(cell_wire(c, ordered=False) for c in pr.cells) or "-"
     ps = ";".join("%d:%d:%d" % (s.number,
                                 s.periodic_surface.number if s.periodic_surface is not None else 0,
                                 s.transform.number if s.transform is not None else 0) for s in pr.surfaces) or "-"
@@ -163,20 +172,47 @@ def real_response(pr, exc, mmap):
 def canon_model(ans):
     """the model lists to_delete in insertion order; a Python set has no order: sort it"""
     w = ans.split(" ")
-    if len(w) == 6 and w[0] == "ok" and w[3] != "-":
-        w[3] = ",".join(str(x) for x in sorted(int(x) for x in w[3].split(",")))
+    if len(w) == 6 and w[0] == "ok":
+        if w[3] != "-":
+            w[3] = ",".join(str(x) for x in sorted(int(x) for x in w[3].split(",")))
+        if w[4] != "-":
+            cells = []
+            for c in w[4].split(";"):
+                n, ss, g = c.split(":")
+                if ss != "-":
+                    ss = ",".join(str(x) for x in sorted(int(x) for x in ss.split(",")))
+                cells.append(":".join([n, ss, g]))
+            w[4] = ";".join(cells)
     return " ".join(w)
 
 
 # ----------------------------------------------------------------------------- edits before the call
 def apply_pre(pr, pre):
-    """earlier edits; raises whatever the real code raises"""
+    """earlier edits; raises whatever the real code raises.  Some edits aim at what an earlier call just changed:
+    the number it freed, the survivor the cells were just re-pointed to."""
+    freed, survivors = [], []
     for op in pre:
         k = op[0]
         if k == "dedup":
+            had = [s.number for s in pr.surfaces]
             with warnings.catch_warnings():
                 warnings.simplefilter("ignore")
                 pr.remove_duplicate_surfaces(float.fromhex(op[1]))
+            now = [s.number for s in pr.surfaces]
+            freed = [n for n in had if n not in now]
+            used = set()
+            for c in pr.cells:
+                used |= {int(t[1:]) for t in walk(c.geometry) if t[0] in "pm"}
+            survivors = [n for n in now if n in used]
+        elif k == "renum_to_freed":
+            if freed and len(pr.surfaces) > 0:
+                ss = list(pr.surfaces)
+                ss[op[1] % len(ss)].number = freed[op[2] % len(freed)]
+        elif k == "geom_survivor":
+            if survivors and len(pr.cells) > 0:
+                cs = list(pr.cells)
+                sv = pr.surfaces[survivors[op[2] % len(survivors)]]
+                cs[op[1] % len(cs)].geometry &= (+sv if op[3] else -sv)
         elif k == "mat":
             pr.cells[op[1]].material = pr.materials[op[2]]
         elif k == "renum_surf":
@@ -266,6 +302,15 @@ def tr_same(ta, tb, tol):
     return all(_within(x, y, tol) for x, y in zip(ra, rb))
 
 
+def per_tr(sv):
+    """(periodic partner | 0, transform number | 0) of a surface view: the live pointers when the oracle was given
+    them (an object can have both; a card shows one), else what the card's pointer says"""
+    if "live" in sv:
+        return sv["live"]
+    p = sv["pointer"]
+    return (-p if p is not None and p < 0 else 0, p if p is not None and p > 0 else 0)
+
+
 def true_duplicate(sa, sb, trs, tol):
     """the property's criteria for a merged pair, judged on what spec read; -> list of reasons it is not"""
     why = []
@@ -273,11 +318,10 @@ def true_duplicate(sa, sb, trs, tol):
         why.append("type")
     if sa["modifier"] != sb["modifier"]:
         why.append("boundary-condition")
-    pa, pb = sa["pointer"], sb["pointer"]
-    if (pa is not None and pa < 0) or (pb is not None and pb < 0):
+    if per_tr(sa)[0] or per_tr(sb)[0]:
         why.append("periodic")
-    ta = trs.get(pa) if pa is not None and pa > 0 else None
-    tb = trs.get(pb) if pb is not None and pb > 0 else None
+    ta = trs.get(per_tr(sa)[1]) if per_tr(sa)[1] else None
+    tb = trs.get(per_tr(sb)[1]) if per_tr(sb)[1] else None
     if tr_same(ta, tb, tol) is False:
         why.append("transform")
     if len(sa["values"]) != len(sb["values"]) or any(not _within(x, y, tol) for x, y in zip(sa["values"], sb["values"])):
@@ -331,6 +375,7 @@ def oracle(case, before_text, before, after_text, after, mmap, tol):
     for n, sv in B["surfs"].items():
         if n in before["ptrs"]:
             per, tr = before["ptrs"][n]
+            sv["live"] = (per, tr)
             sv["pointer"] = -per if per else (tr if tr else None)
     ren = dict(mmap or [])
     removed = [n for n in before["surfs"] if n not in after["surfs"]]
@@ -462,6 +507,15 @@ def relation_shape(rel, mmap):
             "survivor_removed": bool(dead & {v for _, v in (mmap or [])})}
 
 
+def blind_response(case):
+    """the same case with nothing observed between the last edit and the call (observing can refresh caches and hide
+    a corrupted state): -> the response string, observed only after the call"""
+    tol = float.fromhex(case["tol"])
+    pr = build(case)
+    exc, mmap = call_dedup(pr, tol)
+    return real_response(pr, exc, mmap)
+
+
 def run_case(case, want_text=True):
     """-> dict(skip=why) or dict(request, real, before, after, fails, rounding, ...)"""
     tol = float.fromhex(case["tol"])
@@ -487,6 +541,14 @@ def run_case(case, want_text=True):
     real = real_response(pr, exc, mmap)
     out = {"request": req, "real": real, "before": before, "exc": exc, "map": mmap, "rounding": rounding,
            "fails": [], "before_text": before_text, "shape": relation_shape(rel, mmap)}
+    if pre or int(hashlib.sha1(case["text"].encode()).hexdigest(), 16) % 5 == 0:
+        out["blind"] = True
+        try:
+            br = blind_response(case)
+        except Exception as e:      # noqa: BLE001
+            br = "raised " + type(e).__name__
+        if br != real:
+            out["fails"].append(("observation-changes-outcome", {"observed": real[:300], "unobserved": br[:300]}))
     if exc is not None:
         out["fails"].append(("exception:" + exc, exc))
         return out
@@ -669,6 +731,8 @@ def gen_case(rng, opts=None):
     lines.append("mode n")
     lines.append("m1 1001.80c 1")
     lines.append("m2 8016.80c 1")
+    if rng.random() < 0.06:
+        lines.append("vol" + (" no" if rng.random() < 0.3 else "") + " 1" * ncell)
     for tn, deg, disp, rot, m2a in trs:
         tail = ""
         if len(rot) == 9 and (not m2a or rng.random() < 0.2):
@@ -683,6 +747,11 @@ def gen_case(rng, opts=None):
             r = rng.random()
             if r < 0.3:
                 pre.append(["dedup", float(rng.choice([atol * 0.5, atol, 1e-9, tol])).hex()])
+                r2 = rng.random()
+                if r2 < 0.3:
+                    pre.append(["renum_to_freed", rng.randrange(50), rng.randrange(5)])
+                elif r2 < 0.6:
+                    pre.append(["geom_survivor", rng.randrange(50), rng.randrange(5), rng.random() < 0.5])
             elif r < 0.4:
                 if matcells:
                     pre.append(["mat", rng.choice(matcells), 2])
@@ -747,6 +816,38 @@ def failure_kinds(case):
     if "skip" in r:
         return []
     return sorted({f[0] for f in r["fails"]})
+
+
+def neighbours(case):
+    """cases around a disagreement: tolerances taken from the case itself (the differences between its constants, one
+    ulp either side, the usual multiples), the surface block in reverse order, an earlier call"""
+    import math
+    tol = float.fromhex(case["tol"])
+    vals = []
+    parts = case["text"].split("\n\n")
+    for line in (parts[1].split("\n") if len(parts) > 1 else []):
+        for w in line.split()[1:]:
+            try:
+                vals.append(float(w))
+            except ValueError:
+                pass
+    diffs = sorted({abs(a - b) for a in vals for b in vals if 0 < abs(a - b) < 10})[:6]
+    tols = []
+    for t in [tol * k for k in (1.0, 0.5, 0.99, 1.01, 2.0)] + diffs:
+        for u in (t, math.nextafter(t, math.inf), math.nextafter(t, -math.inf)):
+            if u not in tols:
+                tols.append(u)
+    texts = [case["text"]]
+    if len(parts) > 1:
+        rev = list(parts)
+        rev[1] = "\n".join(reversed(parts[1].split("\n")))
+        texts.append("\n\n".join(rev))
+    out = []
+    for text in texts:
+        for t in tols[:16]:
+            out.append({"text": text, "tol": float(t).hex(), "pre": case.get("pre", [])})
+        out.append({"text": text, "tol": case["tol"], "pre": case.get("pre", []) + [["dedup", case["tol"]]]})
+    return out
 
 
 # ============================================================================ workers
@@ -855,7 +956,7 @@ def run(ctx):
     dist = {"cases": 0, "corpus": len(corpus), "skipped": {}, "tol": {}, "with_pre": 0, "pre_ops": {},
             "merged_pairs": 0, "cases_with_merge": 0, "family_shapes": {}, "exceptions": {},
             "surfaces": 0, "cells": 0, "transforms": 0, "leaves": 0, "rounding_decides": 0,
-            "cell_surfaces_emptied": 0, "oracle_failure_kinds": {}, "cells_repointed": 0,
+            "blind_passes": 0, "with_cell_modifier_card": 0, "cell_surfaces_emptied": 0, "oracle_failure_kinds": {}, "cells_repointed": 0,
             "surviving_shared_by_2plus_cells": 0}
     results = []
     for c, r in zip(cases, run_all(cases, procs)):
@@ -884,11 +985,13 @@ def run(ctx):
         dist["surfaces"] += len(b["surfs"])
         dist["cells"] += len(b["cells"])
         dist["leaves"] += sum(len([t for t in w if t[0] in "pmc"]) for w in b["cells"].values())
-        dist["transforms"] += r["request"].split(" ")[3].count(";") + (r["request"].split(" ")[3] != "-")
+        dist["transforms"] += r["request"].split(" ")[4].count(";") + (r["request"].split(" ")[4] != "-")
+        dist["with_cell_modifier_card"] += r["request"].split(" ")[0].endswith("m")
         nm = len(r["map"] or [])
         dist["merged_pairs"] += nm
         dist["cases_with_merge"] += nm > 0
         dist["rounding_decides"] += r["rounding"]
+        dist["blind_passes"] += bool(r.get("blind"))
         if r["exc"]:
             dist["exceptions"][r["exc"]] = dist["exceptions"].get(r["exc"], 0) + 1
         if "after" in r:
@@ -933,9 +1036,35 @@ def run(ctx):
             ctx.sample({"text": c["text"][:500], "tol": tol, "pre": c["pre"], "map": r["map"], "real": r["real"][:300]})
     if corr_bad:
         first = corr_bad[0]
+
+        def mismatching(cc):
+            rr = run_case(cc, want_text=False)
+            if "skip" in rr:
+                return False
+            return corr_mismatch(rr, vlib.model_ask(MODEL, [rr["request"]])[0]) is not None
+        small = shrink(first["case"], mismatching)
+        r2 = run_case(small, want_text=False)
+        if "skip" not in r2:
+            first = {"case": small, "mismatch": corr_mismatch(r2, vlib.model_ask(MODEL, [r2["request"]])[0])}
         ctx.broken_obligations.append({
             "obligation": "correspondence Dedup.dedup vs MCNP_Problem.remove_duplicate_surfaces",
             "detail": {"n": len(corr_bad), "first": first}})
+        # the code no longer does what the model says: look for a concrete failing input around the disagreement
+        tried = 0
+        for nb in neighbours(small):
+            if n_viol >= 8:
+                break
+            rn = run_case(nb)
+            tried += 1
+            if "skip" in rn:
+                continue
+            att = attribute_classes(nb, rn)
+            for k in sorted(att):
+                if att[k] is None and n_viol < 8:
+                    if ctx.fail({"kind": k, "case": nb, "near": "correspondence disagreement",
+                                 "detail": [str(f[1])[:400] for f in rn["fails"] if f[0] == k][:3]}):
+                        n_viol += 1
+        dist["neighbours_of_disagreement_tried"] = tried
     # ---- replay the committed findings
     for fd in ctx.findings:
         if fd.get("status") == "open" and fd.get("replay"):
@@ -946,7 +1075,8 @@ def run(ctx):
             except Exception:       # noqa: BLE001
                 fd["_reproduced"] = False
     tb = vlib.KERNEL_TB + [
-        "modelled, not verified: MCNP_Problem.remove_duplicate_surfaces, Cell/HalfSpace/UnitHalfSpace."
+        "modelled, not verified: MCNP_Problem.remove_duplicate_surfaces (incl. the failing re-merge of data-block "
+        "VOL/U/LAT/FILL cards), Cell/HalfSpace/UnitHalfSpace."
         "remove_duplicate_surfaces, the divider setter, AxisPlane/CylinderOnAxis/CylinderParAxis/Surface."
         "find_duplicate_surfaces, Transform.equivalent, Surface.update_pointers, the reset of cell.surfaces in "
         "Cell.update_pointers, as coq/Model/Dedup.v; object identity = number (collection numbers unique: checked "
